@@ -10,6 +10,7 @@ From Coq Require Import ZArith List Bool QArith Qcanon Lia.
 From Coq Require Import Permutation.
 From SG Require Import Base.QcUtil Model.CombiScheme Model.StdCombi Model.ExtendSplit Model.ESInterp
      Proofs.StdCombiSum Proofs.StdNodal Proofs.ESGeom Proofs.ESInv Proofs.ESTree Proofs.ESCombi Proofs.ESV0 Proofs.ESNodal Proofs.ESDict Proofs.ESShift Proofs.ESRestart Proofs.ESAssignFn.
+From SG Require Import Model.ESV3 Proofs.ESV3P Proofs.ESV12Low Model.ESAuto Proofs.ESAutoP.
 Import ListNotations.
 Open Scope Z_scope.
 
@@ -339,3 +340,142 @@ Proof. vm_compute. repeat split; reflexivity. Qed.
 Example C07_nonvacuous_v12_shift :
   local_combi (mkCP 3 1 7 10 7) 2 = local_combi (mkCP 3 1 1 4 1) 2 /\ length (local_combi (mkCP 3 1 7 10 7) 2) = 19%nat.
 Proof. vm_compute. split; reflexivity. Qed.
+
+(* ==================================================================================================================
+   PHASE 3
+   ================================================================================================================== *)
+
+(* ---- coarsening version 3 (undocumented, accepted by `assert 3 >= version >= 0`; Model/ESV3.v): round-robin
+   decrement of the levels.  GENERAL: every dimension >= 1, all integers lmin <= lmax, EVERY coarsening value c (no upper
+   bound needed), every value of the unused parameters: the local combination is valid.  Proof: the loop is a truncated
+   shift with a lower adjoint (T(l) >= k <-> l >= adj(k)), so inclusion-exclusion of the closed-form scheme carries over. *)
+Theorem C07_local_combi_v3_valid : forall n lmin lmax c base v, lmin <= lmax ->
+  valid_local_combi (S n) (local_combi3 (mkCP (S n) v lmin lmax base) c) = true.
+Proof. intros n lmin lmax c base v H. exact (local_combi3_valid n lmin lmax c base v H). Qed.
+Print Assumptions C07_local_combi_v3_valid.
+
+(* the adjoint property itself: for level vectors >= lmin, the coarsened vector dominates k iff the original dominates adjL k *)
+Theorem C07_v3_loop_has_lower_adjoint : forall fuel dim lmin cur t k,
+  Forall (fun x => lmin <= x) t -> Forall (fun x => lmin <= x) k ->
+  lv_geb (v3_loop fuel dim lmin cur t) k = lv_geb t (adjL fuel dim lmin cur k).
+Proof. exact loop_adj. Qed.
+Print Assumptions C07_v3_loop_has_lower_adjoint.
+
+(* version 3 over histories: the tiling / coarsening / assignment theorems above hold for every value of `version`; the
+   dictionary is not used by version 3, so on every area of every reachable state (restarts included) the computed grids
+   are local_combi3 of the current scheme and coarsening value, a valid local combination whose interpolant is nodally
+   exact (C07_local_interpolant_nodal_exact) *)
+Theorem C07_every_area_valid_local_combi_v3 :
+  forall n nrbe lmin lmax base auto single a b bens0 hist x, wfbox a b -> length a = S n -> lmin <= lmax ->
+  let st := run_events2 (start_state (S n) 3 nrbe lmin lmax base auto single a b bens0) hist in
+  In x (st_objs st) ->
+  area_grids4 (st_cp st) x = local_combi3 (st_cp st) (a_coarse x) /\
+  valid_local_combi (S n) (area_grids4 (st_cp st) x) = true.
+Proof.
+  intros n nrbe lmin lmax base auto single a b bens0 hist x Hbox Hdim Hlev st Hx. unfold st in *. clear st.
+  pose proof (reach2_cp (S n) 3 nrbe lmin lmax base auto single a b bens0 Hbox Hdim Hlev hist) as E.
+  pose proof (coarsening_nonneg2 (S n) 3 nrbe lmin lmax base auto single a b bens0 Hbox Hdim Hlev hist x Hx) as C.
+  set (st := run_events2 (start_state (S n) 3 nrbe lmin lmax base auto single a b bens0) hist) in *.
+  assert (Hl : lmin <= st_lmax st) by lia.
+  assert (G : area_grids4 (st_cp st) x = local_combi3 (st_cp st) (a_coarse x)).
+  { unfold area_grids4, coarsen_results, local_combi3. rewrite E. reflexivity. }
+  split; [exact G|]. rewrite G, E. apply (local_combi3_valid n lmin (st_lmax st) (a_coarse x) base 3 Hl).
+Qed.
+Print Assumptions C07_every_area_valid_local_combi_v3.
+
+Example C07_nonvacuous_v3 :
+  length (local_combi3 (mkCP 3 3 1 4 1) 2) = 19%nat /\
+  firstn 4 (local_combi3 (mkCP 3 3 1 4 1) 2) = [([0; 0; 3], 1); ([0; 0; 2], 1); ([0; 1; 1], 1); ([0; 2; 0], 1)] /\
+  valid_local_combi 3 (local_combi3 (mkCP 3 3 1 4 1) 2) = true /\
+  adjL 2 3 1 0 [2; 1; 3] = [3; 1; 3] /\ lv_geb (v3_loop 2 3 1 0 [3; 2; 3]) [2; 1; 3] = true.
+Proof. vm_compute. repeat split; reflexivity. Qed.
+
+(* ---- versions 1 and 2, GENERAL but PARTIAL.
+   FULL STATEMENT (open; no counterexample exists for d 2..7 and spans up to 14/10/8/7/6/5 (Python enumeration), proved for
+   d 2..5, span 0..6 and every lmin by C07_local_combi_v12_valid_all_lmin_bounded):
+     forall d >= 2, lmin <= lmax, 0 <= c <= lmax - lmin, v in {1,2}:  local_IE d (local_combi (mkCP d v lmin lmax lmin) c).
+   PROVED for ALL d >= 1, lmin <= lmax, c, base: (a) the while loop never pushes a level below the `no_forward_problem`
+   threshold: every coarsened level y of an original level x satisfies y = x or (y < x and thr - 2 <= 2 y) with
+   thr = lmax + base - c + delta (delta = 1 / 2 for version 1 / 2); (b) inclusion-exclusion (coefficient sum 1) at every level
+   vector k of the downward closure that lies below the threshold (2 (k_i + lmin) <= thr - 2 for all i; for base = lmin:
+   2 k_i <= (lmax - lmin - c) + delta - 2).  Missing for the full statement: the alternating-sum identity
+     sum_{l >= k} coeff(l) [ sum_i (l_i - max k + 1)^+ <= c ] = 0   for k above the threshold that stay dominated,
+   (the loop reaches the cap max k - 1 iff that budget condition holds), which is not an up-set condition in l. *)
+Theorem C07_v12_never_below_threshold : forall n v lmin lmax base c l td,
+  Forall2 (low_ok (lmax + base - c + v12_delta v)) l
+          (v12_loop (Z.to_nat c) v (Z.of_nat (S n)) base lmin lmax c td c l).
+Proof. intros n v lmin lmax base c l td. exact (v12_never_below_threshold n v lmin lmax base c l td). Qed.
+Print Assumptions C07_v12_never_below_threshold.
+
+Theorem C07_local_combi_v12_IE_below_threshold_partial : forall n v lmin lmax base c k, v <> 0 -> lmin <= lmax ->
+  length k = S n -> Forall (fun x => 0 <= x) k ->
+  Forall (fun x => 2 * (x + lmin) <= lmax + base - c + v12_delta v - 2) k ->
+  (exists g, In g (local_combi (mkCP (S n) v lmin lmax base) c) /\ lv_geb (fst g) k = true) ->
+  dominating_sum (local_combi (mkCP (S n) v lmin lmax base) c) k = 1.
+Proof. intros n v lmin lmax base c k Hv Hle. exact (local_combi_v12_IE_low n v lmin lmax base c Hv Hle k). Qed.
+Print Assumptions C07_local_combi_v12_IE_below_threshold_partial.
+
+(* non-vacuity: d = 3, version 2, lmin = 1, lmax = 9, c = 2 (OUTSIDE the enumerated box: span 8): threshold 2 k_i <= 6;
+   k = (3,2,0) is dominated and below the threshold *)
+Example C07_nonvacuous_v12_low :
+  existsb (fun g => lv_geb (fst g) [3; 2; 0]) (local_combi (mkCP 3 2 1 9 1) 2) = true /\
+  dominating_sum (local_combi (mkCP 3 2 1 9 1) 2) [3; 2; 0] = 1 /\
+  forallb (fun x => 2 * (x + 1) <=? 9 + 1 - 2 + v12_delta 2 - 2) [3; 2; 0] = true.
+Proof. vm_compute. repeat split; reflexivity. Qed.
+
+(* ---- the extend/split decision of automatic_extend_split and the split dimensions of split_single_dim as FUNCTIONS of
+   the error numbers of the refined area (Model/ESAuto.v: auto_decide = benefit_extend < benefit_split; split_dims_of =
+   dimensions with twin error >= 0.9 * max; twin bookkeeping twin_run).  The benefit numbers / twin errors themselves
+   (float error-estimate arithmetic on the integrand, or scripted by the harness) are inputs. *)
+
+(* every history driven by numbers is a history of the model with these decisions ... *)
+Theorem C07_numbers_history_is_history : forall hist st, run_numbers st hist = run_events st (events_of_numbers hist).
+Proof. exact run_numbers_is_run_events. Qed.
+Print Assumptions C07_numbers_history_is_history.
+
+(* ... so tiling, coarsening bounds and point assignment hold for EVERY outcome of the automatic decision and of
+   get_split_dims (every list of benefit pairs and twin errors) *)
+Theorem C07_tiling_for_every_decision_outcome :
+  forall dim version nrbe lmin lmax base auto single a b bens0 hist, wfbox a b -> length a = dim -> lmin <= lmax ->
+  let st := run_numbers (start_state dim version nrbe lmin lmax base auto single a b bens0) hist in
+  Parts dim (a, b) (map abox (st_objs st)) /\
+  (forall x, In x (st_objs st) -> 0 <= a_coarse x <= st_lmax st - lmin) /\
+  (forall pts, (forall p, In p pts -> length p = dim /\ contains a b p = true) ->
+     let res := assign_points (current_tree st) pts in
+     (forall p, occ p (assigned res) = occ p pts) /\
+     (forall bx ps, In (bx, ps) res -> In bx (map abox (st_objs st)) /\ forall p, In p ps -> inb bx p = true)).
+Proof. exact numbers_tiling. Qed.
+Print Assumptions C07_tiling_for_every_decision_outcome.
+
+(* the decision taken for the area with box b depends only on the numbers of that area: its benefit pair and its twin errors *)
+Theorem C07_decision_depends_only_on_own_numbers : forall b nums nums' dflt,
+  numbers_for b nums = numbers_for b nums' -> lookup b (map decision_of nums) dflt = lookup b (map decision_of nums') dflt.
+Proof. exact decision_depends_only_on_own_numbers. Qed.
+Theorem C07_decision_is_function_of_numbers : forall nm,
+  snd (decision_of nm) = (auto_decide (fst (fst (snd nm))) (snd (fst (snd nm))), split_dims_of (snd (snd nm))).
+Proof. exact decision_of_numbers. Qed.
+(* twin bookkeeping: the dimensions a split uses are split_dims_of the twin errors stored for that area, whatever the
+   rest of the table is *)
+Theorem C07_twin_split_dims_function : forall es b e, tw_get b es = Some e ->
+  snd (twin_step es (TRefine b false)) = Some (b, split_dims_of (the_errors (fst (snd e)))).
+Proof. exact twin_split_dims_function. Qed.
+(* get_split_dims never returns an empty list (non-negative twin errors): a split splits in at least one dimension *)
+Theorem C07_split_dims_nonempty : forall te, te <> [] -> Forall (fun x => (0 <= x)%Qc) te -> split_dims_of te <> [].
+Proof. exact split_dims_nonempty. Qed.
+Print Assumptions C07_decision_depends_only_on_own_numbers.
+Print Assumptions C07_decision_is_function_of_numbers.
+Print Assumptions C07_twin_split_dims_function.
+Print Assumptions C07_split_dims_nonempty.
+
+Example C07_nonvacuous_decisions :
+  auto_decide (Q2Qc (1 # 4)) (Q2Qc (1 # 2)) = true /\ auto_decide (Q2Qc (1 # 2)) (Q2Qc (1 # 2)) = false /\
+  split_dims_of [Q2Qc (9 # 10); Q2Qc 1; Q2Qc (1 # 2)] = [0%nat; 1%nat] /\
+  (* 2D: root split in both dimensions, twin errors set for the area [0,1/2]x[0,1/2] (the twins get them too), split of it *)
+  let '(es, log) := twin_run (twin_init 2 [Q2Qc 0; Q2Qc 0] [Q2Qc 1; Q2Qc 1])
+                             [TSet ([Q2Qc 0; Q2Qc 0], [Q2Qc (1 # 2); Q2Qc (1 # 2)]) 0 (Q2Qc 1);
+                              TSet ([Q2Qc 0; Q2Qc 0], [Q2Qc (1 # 2); Q2Qc (1 # 2)]) 1 (Q2Qc (1 # 2));
+                              TRefine ([Q2Qc 0; Q2Qc 0], [Q2Qc (1 # 2); Q2Qc (1 # 2)]) false] in
+  map snd log = [[0%nat]] /\ length es = 5%nat /\
+  map (fun e => map (fun t => match t with Some x => Some (this x) | None => None end) (fst (snd e))) es =
+    [[None; Some (1 # 2)%Q]; [Some 1%Q; None]; [None; None]; [None; Some (1 # 4)%Q]; [None; Some (1 # 4)%Q]].
+Proof. vm_compute. repeat split; reflexivity. Qed.
